@@ -29,7 +29,9 @@ NameOK   == T.obs.saved => T.obs.name = (IF LangOf("name") = T.base THEN "" ELSE
 \* a message is created whenever there is something to send
 MsgOK    == (HasPart("text") \/ HasPart("attachments")) => T.obs.msg
 
-InvC18 == /\ Check("C18.TextOK", TextOK) /\ Check("C18.AttsOK", AttsOK) /\ Check("C18.QrsOK", QrsOK)
+\* the case arguments a router compares with: translation of the preferred language, base arguments if its length differs
+ArgsOK   == T.obs.saved => T.obs.arguments = Source(PickArgs(P, T.base, T.tr["arguments"]), T.base)
+InvC18 == /\ Check("C18.ArgsOK", ArgsOK) /\ Check("C18.TextOK", TextOK) /\ Check("C18.AttsOK", AttsOK) /\ Check("C18.QrsOK", QrsOK)
           /\ Check("C18.LocaleOK", LocaleOK) /\ Check("C18.NameOK", NameOK) /\ Check("C18.MsgOK", MsgOK)
 Accepted == TLCGet("stats").diameter = Len(Trace)
 =============================================================================
